@@ -155,6 +155,7 @@ Proof.
     try (apply set_fixed_bytes_wf; assumption); try (apply set_var_bytes_wf; assumption).
   - apply set_null_wf; assumption.
   - destruct (column s col) as [[]|]; apply set_fixed_bytes_wf; assumption.
+  - destruct (column s col) as [[]|]; apply set_fixed_bytes_wf; assumption.
 Qed.
 
 Lemma set_row_wf s row : forall st idx, wf s st -> 0 <= idx -> bres_wf s (set_row s st idx row).
@@ -224,13 +225,13 @@ Definition record_bytes (s : schema) (bm : list Z) (row : list value) : list Z :
     ++ fsegs s row ++ concat (vsegs s row).
 
 Lemma build_fresh_closed s row :
-  schema_ok s = true -> fits_row s row = true -> has_float4 s row = false ->
+  schema_ok s = true -> fits_row s row = true ->
   exists bm,
     build_fresh s row = Ok (record_bytes s bm row) /\
     blen bm = bitmap_size (ncols s) /\
     (forall j, (j < length s)%nat -> bit bm (Z.of_nat j) = is_vnull (nth j row VNull)).
 Proof.
-  intros Hs Hfr H4. unfold fits_row in Hfr. apply andb_true_iff in Hfr. destruct Hfr as [Hfc Htv].
+  intros Hs Hfr. unfold fits_row in Hfr. apply andb_true_iff in Hfr. destruct Hfr as [Hfc Htv].
   unfold build_fresh. destruct (fresh_ok s) as [st0 [Hf [Hw0 [Hfd0 [Hvd0 Hbit0]]]]]. rewrite Hf.
   unfold build_record_into_buffer. rewrite (reset_fresh _ _ Hw0), Hf.
   destruct Hw0 as [Hl0 _].
@@ -252,12 +253,12 @@ Qed.
 
 (* size of a record: header (2 + bitmap + 2 per variable column) + fixed area + variable bytes *)
 Lemma record_size_formula_l s row bytes :
-  schema_ok s = true -> fits_row s row = true -> has_float4 s row = false ->
+  schema_ok s = true -> fits_row s row = true ->
   build_fresh s row = Ok bytes ->
   blen bytes = 2 + bitmap_size (ncols s) + 2 * nvar s + total_fixed s + total_var s row.
 Proof.
-  intros Hs Hfr H4 Hb.
-  destruct (build_fresh_closed s row Hs Hfr H4) as [bm [Hc [Hl _]]].
+  intros Hs Hfr Hb.
+  destruct (build_fresh_closed s row Hs Hfr) as [bm [Hc [Hl _]]].
   rewrite Hc in Hb. inversion Hb; subst bytes.
   unfold fits_row in Hfr. apply andb_true_iff in Hfr. destruct Hfr as [Hfc _].
   unfold record_bytes. rewrite !blen_app, blen_le_bytes, Hl, fsegs_len, concat_vsegs_len by assumption.
